@@ -39,6 +39,7 @@ func c09prop(ev *evid.Rec) func(rt *rapid.T) {
 		preexisting := rapid.IntRange(0, 7).Draw(rt, "preexisting") == 0
 		ncuts := rapid.IntRange(0, 4).Draw(rt, "ncuts")
 		own := rapid.IntRange(0, 3).Draw(rt, "ownroot") == 0
+		optWide := rapid.Bool().Draw(rt, "resumeOptionWide")
 		// how the client's bytes on the transfer connection are cut into segments ("" = one Write per message)
 		seg := rapid.SampledFrom([]string{"", "", "random", "header", "bytes"}).Draw(rt, "segmentation")
 		segSeed := rapid.Uint64().Draw(rt, "segseed")
@@ -75,7 +76,12 @@ func c09prop(ev *evid.Rec) func(rt *rapid.T) {
 					fs = append(fs, fld(hlref.FFilePath, path))
 				}
 				if resume {
-					fs = append(fs, fld(hlref.FFileTransferOptions, hlref.BE16(2)))
+					// integer fields may be sent 2 or 4 bytes wide
+					if optWide {
+						fs = append(fs, fld(hlref.FFileTransferOptions, hlref.BE32(2)))
+					} else {
+						fs = append(fs, fld(hlref.FFileTransferOptions, hlref.BE16(2)))
+					}
 				} else {
 					fs = append(fs, fld(hlref.FTransferSize, hlref.BE32(total)))
 				}
